@@ -9,6 +9,7 @@ import DryocVerif.Spec.ChaCha20
 import DryocVerif.Model.Poly1305
 import DryocVerif.Model.Utils
 import DryocVerif.Model.Blake2b
+import DryocVerif.Model.Core
 open DryocVerif
 namespace Driver.Hash
 
@@ -28,6 +29,19 @@ def ghModelInc (outlen : Nat) (key : Bytes) (cs : List Bytes) : String :=
   | .err => "err"
   | .panic => "panic"
 
+/-- the 16-byte constant of the line protocol as the `Option<(u32, u32, u32, u32)>` argument of
+`crypto_core_hsalsa20`: the four words `load_u32_le(&c[4 * i..4 * i + 4])` -/
+def coreConst (c : Bytes) : Option (UInt32 × UInt32 × UInt32 × UInt32) :=
+  let w (i : Nat) := Model.Core.loadU32LE (Model.Utils.slice c (4 * i) (4 * i + 4))
+  some (w 0, w 1, w 2, w 3)
+
+/-- model side of `crypto_auth_verify` -/
+def authVerifyModel (k m t : Bytes) : String :=
+  match Model.Core.hmacVerify Spec.Sha512.sha512 t m k with
+  | .ok () => "ok"
+  | .err => "err"
+  | .panic => "panic"
+
 def handle (op : String) (args : List String) : Option Ans :=
   match op, hexArgs args with
   | "poly1305", some [k, m] =>
@@ -40,17 +54,22 @@ def handle (op : String) (args : List String) : Option Ans :=
       some ((if t = Model.Poly1305.mac k m then "ok" else "err"), (if t = Spec.Poly1305.mac k m then "ok" else "err"))
   | "increment", some [b] =>
       some (okHex (Model.Utils.incrementBytes b), okHex (toLE b.length (le b + 1)))
-  | "auth", some [k, m] => some ("n/a", okHex (Spec.Hmac.hmacSha512256 k m))
-  | "auth_inc", some (k :: cs) => some ("n/a", okHex (Spec.Hmac.hmacSha512256 k cs.flatten))
-  | "auth_obj", some (k :: cs) => some ("n/a", okHex (Spec.Hmac.hmacSha512256 k cs.flatten))
-  | "auth_verify", some [k, m, t] => some ("n/a", if t = Spec.Hmac.hmacSha512256 k m then "ok" else "err")
+  | "auth", some [k, m] =>
+      some (outBytes (Model.Core.hmac Spec.Sha512.sha512 k m), okHex (Spec.Hmac.hmacSha512256 k m))
+  | "auth_inc", some (k :: cs) =>
+      some (outBytes (Model.Core.hmacChunks Spec.Sha512.sha512 k cs), okHex (Spec.Hmac.hmacSha512256 k cs.flatten))
+  | "auth_obj", some (k :: cs) =>
+      some (outBytes (Model.Core.hmacChunks Spec.Sha512.sha512 k cs), okHex (Spec.Hmac.hmacSha512256 k cs.flatten))
+  | "auth_verify", some [k, m, t] =>
+      some (authVerifyModel k m t, if t = Spec.Hmac.hmacSha512256 k m then "ok" else "err")
   | "sha512", some [m] => some ("n/a", okHex (Spec.Sha512.sha512 m))
   | "sha512_inc", some cs => some ("n/a", okHex (Spec.Sha512.sha512 cs.flatten))
   | "sha512_obj", some cs => some ("n/a", okHex (Spec.Sha512.sha512 cs.flatten))
-  | "shorthash", some [k, m] => some ("n/a", okHex (Spec.SipHash.siphash24 k m))
-  | "hsalsa20", some [k, i] => some ("n/a", okHex (Spec.Salsa20.hsalsa20 k i))
-  | "hsalsa20", some [k, i, c] => some ("n/a", okHex (Spec.Salsa20.hsalsa20 k i c))
-  | "hchacha20", some [k, i] => some ("n/a", okHex (Spec.ChaCha20.hchacha20 k i))
+  | "shorthash", some [k, m] => some (okHex (Model.Core.siphash24 k m), okHex (Spec.SipHash.siphash24 k m))
+  | "hsalsa20", some [k, i] => some (okHex (Model.Core.hsalsa20 k i none), okHex (Spec.Salsa20.hsalsa20 k i))
+  | "hsalsa20", some [k, i, c] =>
+      some (okHex (Model.Core.hsalsa20 k i (coreConst c)), okHex (Spec.Salsa20.hsalsa20 k i c))
+  | "hchacha20", some [k, i] => some (okHex (Model.Core.hchacha20 k i none), okHex (Spec.ChaCha20.hchacha20 k i))
   | _, _ =>
     match op, args with
     | "generichash", n :: rest =>
